@@ -11,7 +11,7 @@ for f in sorted(glob.glob('/verif/seeded/*/meta.json')):
     names = []
     for b in (last['by'] if last and last['caught'] else []):
         if b.startswith('obligation '):
-            n = re.split(r'/(?:pre|post|safety|inv-|frame|variant|cover|canary|overflow|unbound|outside|lemma)', b[len('obligation '):])[0]
+            n = re.split(r'/(?:pre/|post/|safety/|inv-|frame|variant/|cover/|canary|overflow|unbound|outside|lemma)', b[len('obligation '):])[0]
             n = re.sub(r'^(\(\*?)[^()]*/', r'\1', n)      # (*a/b/pkg.T).m -> (*pkg.T).m
             if not n.startswith('('):
                 n = n.split('/')[-1]
